@@ -15,10 +15,13 @@ THEOREMS = [
     "Typedpy.C16.stub_perm_invariant", "Typedpy.C16.stub_set_invariant", "Typedpy.C16.stub_imports_sorted",
     "Typedpy.C16.required_optional_fixed_example", "Typedpy.C16.inherited_addl_counterexample",
     "Typedpy.C16.C16_statement_false", "Typedpy.C16.stub_params_agree_example",
+    "Typedpy.C16.stub_sigkw_iff", "Typedpy.C16.sig_kwargs_not_admitted_iff", "Typedpy.C16.stub_sigkw_agree_partial",
+    "Typedpy.C16.stub_sigkw_disagree", "Typedpy.C16.stub_kw_matches_constructor_in_off_region",
+    "Typedpy.C16.inherited_addl_off_counterexample", "Typedpy.C16.C16_signature_statement_false",
 ]
 RULE = ("generated modules: 2-7 Structure classes (annotation and assignment style; inheritance from 1-2 earlier "
         "classes, Partial/Omit/Pick/Extend/AllFieldsRequired bases, ImmutableStructure; _required/_optional/"
-        "_additional_properties written or not; typing.Optional and AnyOf/OneOf/AllOf[X, None] fields, defaults, "
+        "_additional_properties/_ignore_none/_immutable written or not, incl. chains where a base sets all flags and 1-3 subclasses restate nothing; `import datetime/decimal` with attribute-access field types; typing.Optional and AnyOf/OneOf/AllOf[X, None] fields, defaults, "
         "Constants, nested collections, enum/reference fields, overriding of inherited fields, custom __init__), "
         "enums, plain classes, dataclasses, functions, module constants; additional_properties_default in "
         "{True, False}; every module through the real create_stub_for_file, ast.parse, parameter extraction; "
@@ -80,7 +83,13 @@ def judge(case, impl, model):
     for p in impl.get("abstraction", []):
         msgs.append("abstraction: " + p)
     if "gen_err" in impl:
-        fails.append(("generator-raises", "create_stub_for_file raised " + impl["gen_err"]))
+        imported = [it["module"] for it in case["mod"]["items"] if it["kind"] == "import"]
+        if imported and "AttributeError" in impl["gen_err"] and "has no attribute '__module__'" in impl["gen_err"]:
+            fails.append(("generator-raises:import-name-clash",
+                          f"create_stub_for_file raised {impl['gen_err']} (module does `import {imported[0]}` and a field's "
+                          "python type has the module's name, e.g. datetime.datetime / DateTime)"))
+        else:
+            fails.append(("generator-raises:other", "create_stub_for_file raised " + impl["gen_err"]))
         return _m(msgs), fails
     for s, sha in impl.get("seeds", {}).items():
         if sha != impl["sha"]:
@@ -191,6 +200,16 @@ def judge(case, impl, model):
                 elif seen_default:
                     fails.append(("param-order:init", f"{name}: mandatory parameter {n} after an optional one"))
                     break
+            # the `**` clause against inspect.signature(cls) (the observation point named by the property)
+            if init["kw"] != rv["sigkw"] and not (known_kw and init["kw"]):
+                if mc["inheritedAddlOff"] and rv["sigkw"] and not init["kw"] and admits is False:
+                    fails.append(("inherited-additional-properties-off:signature-kwargs",
+                                  f"{name}: inspect.signature(cls) has **kwargs, the stub __init__ has no **kw; the "
+                                  "constructor rejects unknown keywords (_additional_properties=False only inherited): "
+                                  "the runtime __signature__ is the wrong side"))
+                else:
+                    fails.append(("kw-mismatch:signature",
+                                  f"{name}: stub **kw={init['kw']}, inspect.signature **kwargs={rv['sigkw']}, admits={admits}"))
             if admits is not None and init["kw"] != admits:
                 if known_kw and init["kw"] and not admits:
                     fails.append(("inherited-additional-properties",
